@@ -1320,6 +1320,7 @@ def generic_rules(prop, index, rep):
         ng += stale_snapshot_rule(index, rep, rid2, mods)
         ng += found_or_empty_rule(index, rep, rid2, mods)
         ng += method_tested_rule(index, rep, rid2, mods)
+        ng += alias_restore_rule(index, rep, rid2, mods)
         rep.ob(rid2, "src/dendropy", "%d nested loops and %d None-guards in the property's modules examined" % (nl, ng), True, nontrivial=nl + ng > 0)
 
 
@@ -1369,6 +1370,35 @@ def resized_while_iterated_rule(index, rep, rid, modules):
                 if bad is not None:
                     rep.check(False, rid, fi.qualname, "`%s` resized while it is iterated" % txt, fn_where(fi, bad[0]), "",
                               "%s iterates `%s` and %s inside the loop (`%s`): a dict or set raises RuntimeError('changed size during iteration') as soon as that happens, a list skips or repeats members - iterate over a copy (list(...)) instead" % (fi.qualname, txt, bad[1], (norm_stmt(bad[0]) if isinstance(bad[0], ast.stmt) else norm(bad[0]))[:60]))
+    return n
+
+
+def alias_restore_rule(index, rep, rid, modules):
+    """save / change / restore needs a copy: `old = obj.attr` ... `obj.attr.add(...)` ... `obj.attr = old` restores
+    nothing when `old` is the very container that was changed in place."""
+    n = 0
+    for m in modules:
+        for fi in index.functions_in_module(m):
+            saves = {}
+            for st in walk_no_nested(fi.node):
+                if isinstance(st, ast.Assign) and len(st.targets) == 1 and isinstance(st.targets[0], ast.Name) and isinstance(st.value, ast.Attribute):
+                    saves.setdefault(st.targets[0].id, []).append(st)
+            if not saves:
+                continue
+            for st in walk_no_nested(fi.node):
+                if not (isinstance(st, ast.Assign) and len(st.targets) == 1 and isinstance(st.targets[0], ast.Attribute) and isinstance(st.value, ast.Name) and st.value.id in saves):
+                    continue
+                tgt = norm(st.targets[0])
+                sv = [a for a in saves[st.value.id] if norm(a.value) == tgt and a.lineno < st.lineno]
+                if not sv or len(saves[st.value.id]) != 1:
+                    continue
+                n += 1
+                muts = [c for c in calls_in(fi.node) if isinstance(c.func, ast.Attribute) and c.func.attr in MUTATORS and norm(c.func.value) == tgt and sv[0].lineno < c.lineno < st.lineno]
+                muts += [x for x in walk_no_nested(fi.node) if isinstance(x, (ast.Assign, ast.AugAssign, ast.Delete)) and sv[0].lineno < x.lineno < st.lineno
+                         and any(isinstance(t, ast.Subscript) and norm(t.value) == tgt for t in (x.targets if not isinstance(x, ast.AugAssign) else [x.target]))]
+                if muts:
+                    rep.check(False, rid, fi.qualname, "`%s` restored from an alias of itself" % tgt, fn_where(fi, st), "",
+                              "%s saves `%s = %s`, changes `%s` IN PLACE (`%s`) and then 'restores' it with `%s`: `%s` is the same object that was changed, so nothing is restored and the temporary setting stays in force for the rest of the run - save a copy (set(...) / list(...) / dict(...)) instead" % (fi.qualname, st.value.id, tgt, tgt, norm(muts[0])[:50] if not isinstance(muts[0], ast.stmt) else norm_stmt(muts[0])[:50], norm_stmt(st)[:60], st.value.id))
     return n
 
 
